@@ -45,44 +45,47 @@ Theorem C07_deps_pre_fix_refuted :
     ~ (exists d, In (k, d) (deps_stat true stat incl) /\ In x d).
 Proof. exact deps_pre_fix_refuted. Qed.
 
-(* ================================================================= part B: the overriding mechanism *)
+(* ================================================================= part B: the overriding mechanism
+   The invariant [coherent u] and the hypothesis [faithful u c] come in two modes: [u = false], the
+   dependencies of all thunks are known (normal operation); [u = true], they are all unknown
+   (FieldDeps::Unknown, hook H4) and the literals are closed. *)
 (* reading a field of a coherent record instance through its thunks = reading the field of the
    S-record it denotes (same value, same error class, same fuel) *)
-Theorem C07_override_refines : forall st rid, coherent st rid ->
+Theorem C07_override_refines : forall u st rid, coherent u st rid ->
   forall fuel k, ifield fuel st rid k = sfield fuel (abs st rid) k.
 Proof. exact override_refines. Qed.
 
 (* a record literal evaluates, without panic, to a coherent instance denoting its S-record *)
-Theorem C07_eval_literal_ok : forall c st l,
-  faithful c -> NoDup (lit_names l) ->
+Theorem C07_eval_literal_ok : forall u c st l,
+  faithful u c -> NoDup (lit_names l) -> (u = true -> lit_closed l) ->
   exists st', eval_literal c st l = Some (st', length (recs st)) /\
-              extends st st' /\ coherent st' (length (recs st)) /\
+              extends st st' /\ coherent u st' (length (recs st)) /\
               srec_sim (abs st' (length (recs st))) (sden_lit l).
 Proof. exact eval_literal_ok. Qed.
 
 (* merge of coherent instances: no panic, a coherent instance, denoting the S-merge, nothing that
    existed before is changed *)
-Theorem C07_merge_ok : forall c st rid1 rid2,
-  faithful c -> coherent st rid1 -> coherent st rid2 ->
+Theorem C07_merge_ok : forall u c st rid1 rid2,
+  faithful u c -> coherent u st rid1 -> coherent u st rid2 ->
   exists st' rid', merge c st rid1 rid2 = Some (st', rid') /\
-                   extends st st' /\ coherent st' rid' /\
+                   extends st st' /\ coherent u st' rid' /\
                    srec_sim (abs st' rid') (smerge (abs st rid1) (abs st rid2)).
 Proof. exact merge_ok. Qed.
 
-Theorem C07_merge_refines : forall c st rid1 rid2 st' rid',
-  faithful c -> coherent st rid1 -> coherent st rid2 ->
+Theorem C07_merge_refines : forall u c st rid1 rid2 st' rid',
+  faithful u c -> coherent u st rid1 -> coherent u st rid2 ->
   merge c st rid1 rid2 = Some (st', rid') ->
   forall fuel k, ifield fuel st' rid' k = sfield fuel (smerge (abs st rid1) (abs st rid2)) k.
 Proof. exact merge_refines. Qed.
 
-Theorem C07_operands_unchanged : forall c st rid1 rid2 st' rid',
-  faithful c -> coherent st rid1 -> coherent st rid2 ->
+Theorem C07_operands_unchanged : forall u c st rid1 rid2 st' rid',
+  faithful u c -> coherent u st rid1 -> coherent u st rid2 ->
   merge c st rid1 rid2 = Some (st', rid') ->
-  forall r, coherent st r -> forall fuel k, ifield fuel st' r k = ifield fuel st r k.
+  forall r, coherent u st r -> forall fuel k, ifield fuel st' r k = ifield fuel st r k.
 Proof. exact operands_unchanged. Qed.
 
-Theorem C07_extends_coherent : forall st st' rid,
-  extends st st' -> coherent st rid -> coherent st' rid /\ abs st' rid = abs st rid.
+Theorem C07_extends_coherent : forall u st st' rid,
+  extends st st' -> coherent u st rid -> coherent u st' rid /\ abs st' rid = abs st rid.
 Proof. exact extends_coherent. Qed.
 
 (* the specification: merging is per field name; reading only depends on the scopes through the
@@ -95,13 +98,13 @@ Theorem C07_sfield_sim : forall R R', srec_sim R R' -> forall fuel k, sfield fue
 Proof. exact sfield_sim. Qed.
 
 (* every override history *)
-Theorem C07_history_refines : forall c h,
-  faithful c -> lits_ok h ->
-  let (st, slots) := irun c h in Forall2 (slot_ok st) slots (srun h).
+Theorem C07_history_refines : forall u c h,
+  faithful u c -> lits_ok u h ->
+  let (st, slots) := irun c h in Forall2 (slot_ok u st) slots (srun h).
 Proof. exact history_refines. Qed.
 
-Theorem C07_history_fields : forall c h i,
-  faithful c -> lits_ok h ->
+Theorem C07_history_fields : forall u c h i,
+  faithful u c -> lits_ok u h ->
   let (st, slots) := irun c h in
   match nth_error slots i, nth_error (srun h) i with
   | Some (Rid r), Some (Some R) => forall fuel k, ifield fuel st r k = sfield fuel R k
@@ -111,14 +114,38 @@ Theorem C07_history_fields : forall c h i,
   end.
 Proof. exact history_fields. Qed.
 
+(* hook H4: with every dependency unknown, closed histories read the same fields *)
+Theorem C07_history_fields_unknown : forall h i,
+  hist_closed h ->
+  let (st, slots) := irun (with_unknown cfg_fixed) h in
+  match nth_error slots i, nth_error (srun h) i with
+  | Some (Rid r), Some (Some R) => forall fuel k, ifield fuel st r k = sfield fuel R k
+  | Some BadRef, Some None => True
+  | None, None => True
+  | _, _ => False
+  end.
+Proof. exact history_fields_unknown. Qed.
+
+Theorem C07_depsunknown_equiv : forall h i,
+  hist_closed h ->
+  let (st, slots) := irun cfg_fixed h in
+  let (stu, slotsu) := irun (with_unknown cfg_fixed) h in
+  match nth_error slots i, nth_error slotsu i with
+  | Some (Rid r), Some (Rid ru) => forall fuel k, ifield fuel stu ru k = ifield fuel st r k
+  | Some BadRef, Some BadRef => True
+  | None, None => True
+  | _, _ => False
+  end.
+Proof. exact depsunknown_equiv. Qed.
+
 (* the two parts meet *)
 Theorem C07_vars_free : forall t x, In x (vars t) <-> free x (emb t).
 Proof. exact vars_free. Qed.
 
-Theorem C07_cfg_fixed_faithful : faithful cfg_fixed.
+Theorem C07_cfg_fixed_faithful : faithful false cfg_fixed.
 Proof. exact cfg_fixed_faithful. Qed.
 
-Theorem C07_cfg_partA_faithful : faithful cfg_partA.
+Theorem C07_cfg_partA_faithful : faithful false cfg_partA.
 Proof. exact cfg_partA_faithful. Qed.
 
 Theorem C07_literal_deps_agree_stat : forall (l : literal) k d x,
@@ -140,7 +167,7 @@ Theorem C07_static_history_same : forall b c h,
 Proof. exact static_history_same. Qed.
 
 Theorem C07_history_fields_current : forall h i,
-  hist_static h -> lits_ok h ->
+  hist_static h -> lits_ok false h ->
   let (st, slots) := irun cfg_current h in
   match nth_error slots i, nth_error (srun h) i with
   | Some (Rid r), Some (Some R) => forall fuel k, ifield fuel st r k = sfield fuel R k
